@@ -72,6 +72,7 @@ CONSTANT Kind = "strings"
 CONSTANT NIns = 2
 CONSTANT NPatch = "all"
 CONSTANT StratMode = "none"
+CONSTANT NAtoms = 3
 INVARIANT %s
 CHECK_DEADLOCK FALSE
 """
